@@ -148,3 +148,8 @@
         }
         s
     }
+    // R14: `continue` inside a `for` body that is dead under the function's precondition (!CTEST) is replaced by a call that must be
+    // proved unreachable
+    pub fn vp_unreachable()
+        requires false,
+    { }
